@@ -137,10 +137,19 @@ class World:
         self.field_kind_cache = {}
 
     # ---------------------------------------------------------------- names
+    def ensure_external(self, name):
+        if name in api.EXTERNALS and name not in self.short:
+            q = f"external.{name}"
+            self.classes[q] = {"name": name, "module": "external", "qualname": q, "mro": [q], "is_abstract": False,
+                               "abstract_methods": [], "methods": {}, "is_enum": False, "is_dataclass": False, "subclasses": []}
+            self.short[name] = [q]
+            self.class_id[q] = 100000 + len(self.class_id)
+
     def cls(self, name):
         """short or qualified class name -> qualified name"""
         if name in self.classes:
             return name
+        self.ensure_external(name)
         qs = self.short.get(name)
         if not qs:
             raise EngineError(f"unknown class {name}")
@@ -149,6 +158,7 @@ class World:
         return qs[0]
 
     def has_cls(self, name):
+        self.ensure_external(name)
         return name in self.classes or len(self.short.get(name, [])) == 1
 
     def short_name(self, qual):
